@@ -455,6 +455,12 @@ class Parser:
 # ------------------------------------------------------------------ translation
 INT_TYPES = {"i128": "I128", "I256": "I256"}
 SMALL = {"u32", "u8", "i32", "usize", "u64"}
+NATTY = {"u32", "u8", "usize", "u64"}
+
+
+def as_nat(l, t):
+    """a literal rendered for an unsigned context"""
+    return l.replace(" : Int)", " : Nat)") if t == "int" else l
 
 
 def is_int(ty):
@@ -470,6 +476,7 @@ class Gen:
         self.sigs = sigs      # (ns, name) -> (param types, ret)
         self.consts = consts  # name -> (ty, lean)
         self.n = 0
+        self.fuel_fns = set()
 
     def fresh(self, base="t"):
         self.n += 1
@@ -486,6 +493,8 @@ class Gen:
         raise Unsupported(f"no namespace for type {ty}")
 
     def lean_ty(self, ty):
+        if ty in NATTY:
+            return "Nat"
         if ty in ("i128", "I256", "Wad") or ty in SMALL:
             return "Int"
         if ty == "bool":
@@ -514,6 +523,10 @@ class Gen:
             r, rt = self.pure(e[3], env)
             if not (is_int(lt) and is_int(rt)):
                 raise Unsupported(f"comparison of {lt} and {rt}")
+            if lt in NATTY or rt in NATTY:
+                if not ((lt in NATTY or lt == "int") and (rt in NATTY or rt == "int")):
+                    raise Unsupported(f"comparison of {lt} and {rt}")
+                l, r = as_nat(l, lt), as_nat(r, rt)
             op = {"==": "=", "!=": "≠", "<": "<", ">": ">", "<=": "≤", ">=": "≥"}[e[1]]
             return f"({l} {op} {r})"
         if e[0] == "un" and e[1] == "!":
@@ -580,6 +593,15 @@ class Gen:
             if e[1] in self.consts:
                 return (self.consts[e[1]][1], self.consts[e[1]][0])
             raise Unsupported(f"unknown variable {e[1]}")
+        if e[0] == "bin" and e[1] in ("&", ">>"):
+            l, lt = self.pure(e[2], env)
+            r = self.strip(e[3])
+            if lt in NATTY and r[0] == "num":
+                if e[1] == "&" and r[1] == 1:
+                    return (f"({l} % 2)", lt)
+                if e[1] == ">>":
+                    return (f"({l} / {2 ** r[1]})", lt)
+            raise Unsupported(f"bit operation {e[1]} on {lt}")
         if e[0] == "cast":
             l, t = self.pure(e[1], env)
             if e[2] in ("i128", "I256") and (t in SMALL or t in ("int", "i128")):
@@ -793,6 +815,9 @@ class Gen:
         def go(i):
             if i == len(real):
                 al = ([recv] if recv is not None else []) + [a for a in atoms if a is not None]
+                if (ns, name) in self.fuel_fns:
+                    al = ["fuel"] + al
+                    self.uses_fuel = True
                 v = self.fresh()
                 return f"(Comp.bind ({ns}.{name} {' '.join(al)}) fun {v} =>\n {k(v, rty)})"
             a = self.strip(real[i])
@@ -806,35 +831,64 @@ class Gen:
             return self.tr(real[i], env, ka, ret)
         return go(0)
 
-    def tr_block(self, b, env, k, ret):
-        if b[0] != "block":
-            return self.tr(b, env, k, ret)
-        stmts, tail = b[1], b[2]
+    def assigned_vars(self, stmts, acc):
+        for st in stmts:
+            if st[0] == "assign":
+                lhs = self.strip(st[1])
+                if lhs[0] != "var":
+                    raise Unsupported("assignment to a non-variable")
+                acc.add(lhs[1])
+            elif st[0] == "while":
+                self.assigned_vars(self.as_stmts(st[2])[1], acc)
+            elif st[0] == "expr" and self.strip(st[1])[0] == "if":
+                e = self.strip(st[1])
+                if e[2][0] == "block":
+                    self.assigned_vars(self.as_stmts(e[2])[1], acc)
+                if e[3] is not None and e[3][0] == "block":
+                    self.assigned_vars(self.as_stmts(e[3])[1], acc)
+        return acc
 
+    def tr_stmts(self, stmts, env, k_end, ret):
+        """statements in sequence; `k_end(env)` generates what follows the last one"""
         def go(i, env):
             if i == len(stmts):
-                if tail is None:
-                    raise Unsupported("block without a value")
-                return self.tr(tail, env, k, ret)
+                return k_end(env)
             s = stmts[i]
             if s[0] == "let":
-                if s[2]:
-                    raise Unsupported("let mut")
                 return self.tr(s[3], env, lambda a, t: go(i + 1, dict(env, **{s[1]: (a, t)})), ret)
+            if s[0] == "assign":
+                lhs = self.strip(s[1])
+                if lhs[0] != "var" or lhs[1] not in env:
+                    raise Unsupported("assignment to an unknown variable")
+                name, (old, oty) = lhs[1], env[lhs[1]]
+                if s[2] == "=":
+                    return self.tr(s[3], env, lambda a, t: go(i + 1, dict(env, **{name: (a, oty if t == "int" else t)})), ret)
+                if s[2] in (">>=", "&="):
+                    l, t = self.pure(("bin", s[2][:-1], s[1], s[3]), env)
+                    return go(i + 1, dict(env, **{name: (l, oty)}))
+                raise Unsupported(f"compound assignment {s[2]}")
+            if s[0] == "while":
+                return self.tr_while(s, env, lambda env2: go(i + 1, env2), ret)
             if s[0] == "expr":
                 e = self.strip(s[1])
-                # `if c { panic!/return }` without else, or a bare panic / return
-                if e[0] == "if" and e[3] is None:
-                    inner = e[2]
-                    body = inner[2] if inner[2] is not None else (inner[1][-1][1] if inner[1] and inner[1][-1][0] == "expr" else None)
-                    if body is None or len(inner[1]) > (0 if inner[2] is not None else 1):
+                if e[0] == "if":
+                    tb = e[2]
+                    if tb[0] != "block":
                         raise Unsupported("if-statement body")
-                    bs = self.strip(body)
-                    if bs[0] == "macro" and bs[1] == "panic_with_error":
-                        return self.branch(e[1], env, lambda: "Comp.panic", lambda: go(i + 1, env), ret)
-                    if bs[0] == "return":
-                        return self.branch(e[1], env, lambda: self.tr(bs, env, None, ret), lambda: go(i + 1, env), ret)
-                    raise Unsupported("if-statement that neither panics nor returns")
+                    def branch_code(b):
+                        if b is None:
+                            return lambda: go(i + 1, env)
+                        b = self.as_stmts(b)
+                        if b[0] != "block":
+                            raise Unsupported("else-if in statement position")
+                        if b[2] is not None:
+                            # a value in statement position: only a diverging one (panic / return) makes sense
+                            t_ = self.strip(b[2])
+                            if not b[1] and ((t_[0] == "macro" and t_[1] == "panic_with_error") or t_[0] == "return"):
+                                return lambda: self.tr(t_, env, None, ret)
+                            raise Unsupported("if-statement with a value")
+                        return lambda: self.tr_stmts(b[1], env, lambda env2: go(i + 1, env2), ret)
+                    return self.branch(e[1], env, branch_code(tb), branch_code(e[3]), ret)
                 if e[0] == "macro" and e[1] == "panic_with_error":
                     return "Comp.panic"
                 if e[0] == "return":
@@ -843,16 +897,67 @@ class Gen:
             raise Unsupported(f"statement {s[0]}")
         return go(0, env)
 
+    def as_stmts(self, b):
+        """a block used as a statement: a trailing `if` without a value is its last statement"""
+        if b[0] == "block" and b[2] is not None:
+            t_ = self.strip(b[2])
+            if t_[0] == "if" and t_[2][0] == "block" and t_[2][2] is None:
+                return ("block", b[1] + [("expr", b[2])], None)
+        return b
+
+    def tr_while(self, s, env, k_after, ret):
+        """`while c { body }`: an auxiliary definition recursing on `fuel`, returning the loop-carried
+        variables (`none` = the body left the FUNCTION through `?`)"""
+        body = self.as_stmts(s[2])
+        if body[2] is not None:
+            raise Unsupported("while body with a value")
+        if not ret.startswith("Option<"):
+            raise Unsupported("while loop in a function that does not return Option")
+        muts = sorted(self.assigned_vars(body[1], set()))
+        for m in muts:
+            if m not in env:
+                raise Unsupported(f"loop assigns unknown variable {m}")
+        others = [v for v in sorted(env) if v not in muts and not v.startswith("$")]
+        self.loops += 1
+        name = f"{self.cur_ns}.{self.cur_fn}.loop{self.loops}"
+        params = muts + others
+        penv = {v: (v + "_", env[v][1]) for v in params}
+        plist = " ".join(f"({penv[v][0]} : {self.lean_ty(env[v][1])})" for v in params)
+        rty = " × ".join(self.lean_ty(env[m][1]) for m in muts)
+        tup = lambda en: "(" + ", ".join(en[m][0] for m in muts) + ")"
+        again = lambda en: f"{name} fuel {' '.join(en[v][0] for v in params)}"
+        code = self.branch(s[1], penv, lambda: self.tr_stmts(body[1], penv, again, ret), lambda: f"Comp.ok (some {tup(penv)})", ret)
+        self.aux.append(f"def {name} (fuel : Nat) {plist} : Comp (Option ({rty})) :=\n match fuel with\n | 0 => Comp.panic\n | fuel + 1 =>\n {code}\n")
+        self.uses_fuel = True
+        r, st = self.fresh("r"), self.fresh("st")
+        env2 = dict(env)
+        for jx, m in enumerate(muts):
+            proj = st if len(muts) == 1 else st + "".join(".2" for _ in range(jx)) + (".1" if jx < len(muts) - 1 else "")
+            env2[m] = (proj, env[m][1])
+        return (f"(Comp.bind ({name} fuel {' '.join(env[v][0] for v in params)}) fun {r} =>\n"
+                f" (Comp.tryOpt {r} fun {st} =>\n {k_after(env2)}))")
+
+    def tr_block(self, b, env, k, ret):
+        if b[0] != "block":
+            return self.tr(b, env, k, ret)
+        stmts, tail = b[1], b[2]
+
+        def k_end(env2):
+            if tail is None:
+                raise Unsupported("block without a value")
+            return self.tr(tail, env2, k, ret)
+        return self.tr_stmts(stmts, env, k_end, ret)
+
     def function(self, ns, f, local_names):
         _, name, params, ret, body, impl_of = f
         self.cur_ns = ns
+        self.cur_fn = name
         self.sigs_local = {("", n) for n in local_names}
         self.n = 0
+        self.loops, self.aux, self.uses_fuel = 0, [], False
         env, lparams = {}, []
         self_ty = impl_of[0] if impl_of else None
         for pn, pt, mut in params:
-            if mut:
-                raise Unsupported(f"mut parameter {pn} of {name}")
             if pt == "Env":
                 continue
             if pt == "Self":
@@ -863,10 +968,14 @@ class Gen:
                 pn_l = pn
             env[pn] = (pn_l, pt)
             lparams.append(f"({pn_l} : {self.lean_ty(pt)})")
-        if ret == "Self":
-            ret = self_ty
+        if self_ty:
+            ret = re.sub(r"\bSelf\b", self_ty, ret)
         code = self.tr_block(body, env, lambda a, t: f"Comp.ok {a}", ret)
-        return f"def {ns}.{name} {' '.join(lparams)} : Comp {self.lean_ty(ret)} :=\n {code}\n"
+        fuel = "(fuel : Nat) " if (ns, name) in self.fuel_fns else ""
+        if self.uses_fuel and not fuel:
+            raise Unsupported(f"{name} uses fuel but was not announced")
+        return "\n".join(self.aux) + ("\n" if self.aux else "") + \
+            f"def {ns}.{name} {fuel}{' '.join(lparams)} : Comp {self.lean_ty(ret)} :=\n {code}\n"
 
 
 FILES = [
@@ -874,7 +983,7 @@ FILES = [
     ("I128", "packages/contract-utils/src/math/i128_fixed_point.rs", None),
     ("Wad", "packages/contract-utils/src/math/wad.rs",
      ["from_integer", "to_integer", "from_ratio", "raw", "from_raw", "checked_add", "checked_sub", "checked_mul",
-      "checked_div", "checked_mul_int", "checked_div_int"]),
+      "checked_div", "checked_mul_int", "checked_div_int", "checked_pow", "pow"]),
 ]
 
 
@@ -913,10 +1022,29 @@ def translate(repo):
         for f in fns:
             self_ty = f[5][0] if f[5] else None
             ptys = [(self_ty if t == "Self" else t) for (_, t, _) in f[2] if t != "Env"]
-            r = self_ty if f[3] == "Self" else f[3]
+            r = re.sub(r"\bSelf\b", self_ty, f[3]) if self_ty else f[3]
             sigs[(ns, f[1])] = (ptys, r)
         parsed.append((ns, rel, fns))
     free_fns = {(ns, f[1]) for ns, rel, fns in parsed for f in fns if f[5] is None}
+    # functions that need a `fuel` argument: those with a `while`, and (transitively) their callers
+    def has_while(e):
+        if isinstance(e, tuple):
+            return (len(e) > 0 and e[0] == "while") or any(has_while(x) for x in e)
+        if isinstance(e, list):
+            return any(has_while(x) for x in e)
+        return False
+    fuel_fns = {(ns, f[1]) for ns, rel, fns in parsed for f in fns if has_while(f[4])}
+    changed = True
+    while changed:
+        changed = False
+        for ns, rel, fns in parsed:
+            for f in fns:
+                if (ns, f[1]) in fuel_fns:
+                    continue
+                acc = set()
+                deps(f[4], acc)
+                if any((ns2, n) in fuel_fns and n in acc for (ns2, n) in list(fuel_fns)):
+                    fuel_fns.add((ns, f[1])); changed = True
     for ns, rel, fns in parsed:
         out.append(f"/-! ## {rel} -/")
         names = [f[1] for f in fns]
@@ -939,6 +1067,7 @@ def translate(repo):
         free = [f[1] for f in fns if f[5] is None]
         g = Gen(sigs, consts)
         g.free_fns = free_fns
+        g.fuel_fns = fuel_fns
         for f in order:
             out.append(g.function(ns, f, free))
     out.append("end OZ.Gen")
